@@ -44,3 +44,31 @@ Theorem C14_no_stale_after_return_refuted :
   r_dec (sh_store (list nat) nat sh) 1 = false.
 Proof. exact stale_after_return_refuted. Qed.
 Print Assumptions C14_no_stale_after_return_refuted.
+
+(* The staleness is lru_cache's, not the protocol's: with a cache back-end whose ask is atomic (look-up, computation and
+   insertion under one lock - a user-supplied back-end may do that), and mutations that apply first and notify second
+   (ObservableMutationStorage), every cache entry is the decision for the store as it is whenever no mutation is between
+   its two steps - under every schedule, any number of threads.  An ask answered then is answered for the current store:
+   nothing stale survives the return of add / update / delete. *)
+Theorem C14_atomic_backend_fresh : forall (S M Q : Type) qeq, (forall a b : Q, qeq a b = true <-> a = b) ->
+  forall mstep dec cap (progs : list (list (act M Q))) sched (s0 : S),
+  forallb (wf_prog M Q) progs = true ->
+  let '(sh, ts) := exec S M Q qeq mstep dec cap sched {| sh_store := s0; sh_cache := [] |} (init_threads M Q progs) in
+  existsb (in_flight M Q) ts = false ->
+  forall q lo, snd (astep S M Q qeq mstep dec cap sh lo (AAsk M Q q)) = Some (OAnswer (dec (sh_store S Q sh) q)).
+Proof. intros S M Q qeq Hq mstep dec cap progs sched s0 H. apply atomic_backend_fresh; assumption. Qed.
+Print Assumptions C14_atomic_backend_fresh.
+
+(* ... and the order of the two steps matters: invalidate-then-apply serves a stale answer even through an atomic
+   back-end (the ask computed between the two steps is stored after the invalidation and never dropped) *)
+Theorem C14_swapped_protocol_stale :
+  let '(sh, ts) := exec (list nat) nat nat Nat.eqb r_mstep r_dec None sw_sched
+                        {| sh_store := []; sh_cache := [] |} (init_threads nat nat sw_progs) in
+  map (fun t => rev (snd t)) ts = [[OAnswer true; OAnswer true]; [OMutated false]] /\
+  r_dec (sh_store (list nat) nat sh) 1 = false.
+Proof. exact swapped_protocol_stale. Qed.
+Print Assumptions C14_swapped_protocol_stale.
+
+Example C14_atomic_backend_nonvacuous :
+  wf_prog nat nat [AAsk nat nat 1; AMut nat nat 1; AInval nat nat; AAsk nat nat 1; ADecide nat nat 2] = true.
+Proof. reflexivity. Qed.
